@@ -206,6 +206,7 @@ inductive Op where
   | cdel (k : Nat)             -- Delete(k) if this thread holds k (it was handed k's value and has not released it), else skip
   | refs (k : Nat)
   | range
+  | closeAll                   -- a client's cleanup (Logging.closeLogs, Handler.Cleanup): Delete every key it remembers, oldest first
 deriving DecidableEq, Repr
 
 inductive PC where
@@ -252,17 +253,29 @@ inductive Move where
   | go (ls : List Label) (th : Thread) (ev : String)
   | stuck                                     -- impossible program counter (never produced for parsed cases)
 
-/-- first region of `Delete(k)` (the pool lock is free) -/
-def delStart (s : G) (th : Thread) (k : Nat) (op : Op) (rest : List Op) : Move :=
+/-- key and entry of the oldest reference a thread remembers (`held` is newest first) -/
+def oldestHeld : List (Nat × Nat) → Option (Nat × Nat)
+  | [] => none
+  | [x] => some x
+  | _ :: xs => oldestHeld xs
+
+/-- first region of `Delete(k)`; `h` = the entry the caller gives back (none: it holds nothing),
+    `held'` = what it remembers afterwards, `after` = its program once this Delete has returned,
+    `stay` = its program while the Delete is still in progress -/
+def delStartWith (s : G) (k : Nat) (h : Option Nat) (held' : List (Nat × Nat)) (stay after : List Op) : Move :=
   match s.pool k with
-  | none => .go [.del1 k (findHeld k th.held)] { prog := rest, pc := .idle, held := eraseHeld k th.held } "Dn"
+  | none => .go [.del1 k h] { prog := after, pc := .idle, held := held' } "Dn"
   | some e =>
     if (s.ent e).refs - 1 = 0 then
-      .go [.del1 k (findHeld k th.held)] { prog := op :: rest, pc := .delRead e, held := eraseHeld k th.held } "Dz"
+      .go [.del1 k h] { prog := stay, pc := .delRead e, held := held' } "Dz"
     else if (s.ent e).refs - 1 < 0 then
-      .go [.del1 k (findHeld k th.held)] { prog := rest, pc := .idle, held := eraseHeld k th.held } "Dp"
+      .go [.del1 k h] { prog := after, pc := .idle, held := held' } "Dp"
     else
-      .go [.del1 k (findHeld k th.held)] { prog := rest, pc := .idle, held := eraseHeld k th.held } "Dd"
+      .go [.del1 k h] { prog := after, pc := .idle, held := held' } "Dd"
+
+/-- first region of `Delete(k)` (the pool lock is free) -/
+def delStart (s : G) (th : Thread) (k : Nat) (op : Op) (rest : List Op) : Move :=
+  delStartWith s k (findHeld k th.held) (eraseHeld k th.held) (op :: rest) rest
 
 /-- second region of `Delete`: read the value of the removed entry -/
 def delRead (s : G) (th : Thread) (e : Nat) (rest : List Op) : Move :=
@@ -270,6 +283,10 @@ def delRead (s : G) (th : Thread) (e : Nat) (rest : List Op) : Move :=
   match (s.ent e).value with
   | some v => .go [.del2 e] { th with pc := .destruct e v } ("E" ++ toString v)
   | none => .go [.del2 e] { prog := rest, pc := .idle, held := th.held } "En"
+
+/-- a client's cleanup continues with its next key, or is finished when it remembers nothing -/
+def afterClose (held : List (Nat × Nat)) (op : Op) (rest : List Op) : List Op :=
+  if held.isEmpty then rest else op :: rest
 
 /-- the next region of a thread: the labels it performs, the thread afterwards, the event token -/
 def tmove (nk : Nat) (s : G) (th : Thread) : Move :=
@@ -313,6 +330,13 @@ def tmove (nk : Nat) (s : G) (th : Thread) : Move :=
          | none => "Pn"
          | some r => "Q" ++ toString r)
     | .idle, .range => .go [.range] { prog := rest, pc := .idle, held := th.held } ("G" ++ rangeListing s nk)
+    | .idle, .closeAll =>
+      match oldestHeld th.held with
+      | none => .go [] { prog := rest, pc := .idle, held := th.held } "Ce"
+      | some (k, e) => delStartWith s k (some e) th.held.dropLast (op :: rest) (afterClose th.held.dropLast op rest)
+    | .delRead e, .closeAll => delRead s th e (afterClose th.held op rest)
+    | .destruct e v, .closeAll =>
+      .go [.del3 e] { prog := afterClose th.held op rest, pc := .idle, held := th.held } ("X" ++ toString v)
     | _, _ => .stuck
 
 /-- what the controller sees when it calls `References(k)` for every key after a step -/
@@ -366,7 +390,7 @@ def drain (nk : Nat) : Nat → Sys → Sys
 
 def allFinished (ths : List Thread) : Bool := ths.all fun th => th.prog.isEmpty
 
-def progSteps (ths : List Thread) : Nat := (ths.map fun th => th.prog.length).sum
+def progSteps (ths : List Thread) : Nat := (ths.map fun th => th.prog.length).sum   -- a cleanup is bounded by the acquisitions before it
 
 def runSched (nk : Nat) (progs : List (List Op)) (sched : List Nat) : Sys :=
   let y0 : Sys := { g := G.init, threads := progs.map fun p => { prog := p } }
